@@ -60,6 +60,21 @@ pub struct Conc {
     vb: usize,
     ida: String,
     idb: String,
+    /// (array descriptor id, revision) of each replica's own version before the exchange
+    leaf_a: Vec<(String, String)>,
+    leaf_b: Vec<(String, String)>,
+}
+
+fn array_leaves(m: &melda::melda::Melda) -> Vec<(String, String)> {
+    let mut out = Vec::new();
+    for id in m.get_all_objects() {
+        if id.starts_with('^') {
+            if let Ok(w) = m.get_winner(&id) {
+                out.push((id, w));
+            }
+        }
+    }
+    out
 }
 
 fn concurrent(k: usize, symbolic: bool) -> Conc {
@@ -72,9 +87,11 @@ fn concurrent(k: usize, symbolic: bool) -> Conc {
     a.m.commit(None).expect("commit a");
     b.m.update(version(vb, &idb)).expect("update b");
     b.m.commit(None).expect("commit b");
+    let leaf_a = array_leaves(&a.m);
+    let leaf_b = array_leaves(&b.m);
     a.pull(&b);
     b.pull(&a);
-    Conc { a, b, va, vb, ida, idb }
+    Conc { a, b, va, vb, ida, idb, leaf_a, leaf_b }
 }
 
 /// the merged document: every surviving element exactly once over both arrays, deleted ones never, and the
@@ -265,6 +282,7 @@ pub fn update_in_conflict() {
 pub fn resolve_array_conflict() {
     let k = sym::param(0) as usize;
     let c = concurrent(k, false);
+    let (leaf_a, leaf_b, va, vb) = (c.leaf_a.clone(), c.leaf_b.clone(), c.va, c.vb);
     let (a, mut b) = (c.a, c.b);
     let arrays: Vec<String> = a.m.in_conflict().into_iter().filter(|id| id.starts_with('^')).collect();
     if arrays.is_empty() {
@@ -291,6 +309,27 @@ pub fn resolve_array_conflict() {
             assert!(!ids[i + 1..].contains(x), "an element appears twice after resolving the array");
         }
     }
+    // the visible array is the state at the chosen revision: the elements of the chosen replica's own version keep the
+    // relative order that version gave them
+    let own = if leaf_a.iter().any(|(i, r)| *i == id && *r == chosen) {
+        Some(va)
+    } else if leaf_b.iter().any(|(i, r)| *i == id && *r == chosen) {
+        Some(vb)
+    } else {
+        None
+    };
+    if let Some(v) = own {
+        let key = if id.contains("items") { "items♭" } else { "more♭" };
+        let order = subst(if key == "items♭" { VERS[v].0 } else { VERS[v].1 }, "d");
+        let shown = ids_of(&after, key);
+        for x in order.iter() {
+            for y in order.iter() {
+                if let (Some(px), Some(py), Some(sx), Some(sy)) = (pos(&order, x), pos(&order, y), pos(&shown, x), pos(&shown, y)) {
+                    assert!((px < py) == (sx < sy), "the resolved array does not show the order of the chosen revision");
+                }
+            }
+        }
+    }
     let count = |d: &Map<String, Value>| ids_of(d, "items♭").len() + ids_of(d, "more♭").len();
     assert!(count(&after) == count(&before), "resolving an array conflict lost or invented elements");
     a.m.commit(None).expect("commit").expect("resolution produced no block");
@@ -302,6 +341,41 @@ pub fn resolve_array_conflict() {
 
 /// C06 with nested flattened arrays: element x of the outer array owns an inner array. Replica a removes x (with its
 /// inner array and elements), replica b concurrently edits x and inserts a new element into the inner array.
+/// One replica appends to the array and then drops it (its deletion of the descriptor has the longer history), the
+/// other appends an element and edits the root twice (its root wins and still references the array). After exchange
+/// the document shows what survives; an unrelated edit + commit (automatic resolution), a reload and the propagation
+/// must not change it.
+pub fn dropped_array_wins() {
+    let (mut a, mut b) = base_pair(doc_with(&["a", "b"], &["x".to_string(), "y".to_string()], "t0"));
+    a.m.update(doc_with(&["a", "b", "p"], &["x".to_string(), "y".to_string(), val()], "t0")).unwrap();
+    if sym::any_bool() {
+        a.m.commit(None).unwrap();
+    }
+    let mut d = Map::new();
+    d.insert("title".to_string(), Value::from("t0"));
+    a.m.update(d).unwrap();
+    a.m.commit(None).unwrap();
+    b.m.update(doc_with(&["a", "b", "c"], &["x".to_string(), "y".to_string(), "z".to_string()], "t1")).unwrap();
+    b.m.commit(None).unwrap();
+    b.m.update(doc_with(&["a", "b", "c"], &["x".to_string(), "y".to_string(), "z".to_string()], "t2")).unwrap();
+    b.m.commit(None).unwrap();
+    b.pull(&a);
+    let before = b.m.read(None).expect("read");
+    sym::observe_str(&serde_json::to_string(&before).unwrap());
+    assert!(b.reopen().read(None).expect("read reopened") == before, "reopened replica reads a different document");
+    let mut o = Map::new();
+    o.insert("text".to_string(), Value::from("hello"));
+    b.m.create_object("note", o).expect("create_object");
+    assert!(b.m.read(None).unwrap() == before, "an unrelated object changed the document");
+    b.m.commit(None).unwrap().expect("block");
+    assert!(b.m.read(None).unwrap() == before, "commit (automatic resolution) changed the document");
+    b.m.reload().expect("reload");
+    assert!(b.m.read(None).unwrap() == before, "reload changed the document");
+    a.pull(&b);
+    assert!(a.m.read(None).unwrap() == before, "the other replica reads a different document after the resolution was propagated");
+    sym::reach(1);
+}
+
 const CHAIN: [&[&str]; 5] = [&["a", "b", "n"], &["b", "n"], &["a", "n"], &["b"], &["n", "a", "b"]];
 
 /// params: []. Each replica submits two versions of the array in a row (chosen among 5, its own new element n = p / q)
